@@ -27,6 +27,7 @@ from __future__ import annotations
 import json
 import math
 import sys
+import time
 from fractions import Fraction
 from pathlib import Path
 
@@ -36,6 +37,9 @@ sys.path.insert(0, str(VERIF / "harness" / "translators"))
 import tr_datatype  # noqa: E402
 import c01_gen as G  # noqa: E402
 import c01_live as LV  # noqa: E402
+import c01_regimes as RG  # noqa: E402
+import c01_routes as RT  # noqa: E402
+import tr_likelihood_options  # noqa: E402
 
 TOL_LEAN = 1e-10
 TOL_ORACLE = 1e-9
@@ -362,6 +366,11 @@ def run(ck: Check):
         ck.notes.append("translator: " + note)
     ck.extra["translator_recognised_source"] = tr_ok
     gen_files = {"TTGen/C01_Alphabet.lean": lean_src}
+    opt_src, opt_ok, opt_note = tr_likelihood_options.translate(REPO)
+    gen_files["TTGen/C01_Options.lean"] = opt_src
+    ck.extra["translator_options_recognised_source"] = opt_ok
+    if not opt_ok:
+        ck.notes.append("translator tr_likelihood_options: " + opt_note)
     try:  # the LG / WAG corollaries (Props/C0x_LGWAG.lean) are about the generated empirical tables: regenerate them too
         import tr_subst
 
@@ -382,6 +391,8 @@ def run(ck: Check):
 
     failures = []  # (case, impl, oracle)
     live_failures = []  # (case, use_prior, ops, records)
+    route_failures = []  # {"case", "route", "baseline", "value" | "error"}
+    probe_failures = []  # (probe, result)
     rng = ck.rng
     thorough = ck.thorough()
     try:
@@ -479,6 +490,37 @@ def run(ck: Check):
                     sample={"shape": shape, "taxa": n, "log10_site_likelihoods": [round(x, 2) for x in logs], "loglik": impl, "reference": want})
             if not close(impl, want, TOL_ORACLE):
                 failures.append((case, impl, want))
+        # ---- CONSTRUCTION ROUTES: the same case through every way the library offers to build the object
+        for i in range(40 if thorough else 10):
+            try:
+                case = G.gen_case(rng, rng.choice([3, 4]), subst=rng.choice(["JC69", "HKY", "GTR", "LG", "WAG", "GeneralNonSymmetric", "MG94"]),
+                                  special=True, nsites=rng.randint(2, 4), indices=(i % 5 == 4))
+                RT.check_routes(ck, case, rng, impl_path, route_failures)
+            except InfraError:
+                raise
+            except Exception as e:  # noqa: BLE001
+                ck.mismatch("construction routes could not be evaluated", {"error": repr(e)[:300]})
+        # ---- REGIMES (dtype, grad mode, immutability, repeatability, deepcopy, device move, batches, special inputs,
+        #      options, failure paths): see harness/c01_regimes.py
+        try:
+            probes = RG.gen_probes(rng, thorough)
+        except Exception as e:  # noqa: BLE001
+            probes = []
+            ck.mismatch("regime probes could not be generated", {"error": repr(e)[:300]})
+        failure_table = []
+        for pr in probes:
+            res = RG.run_probe(pr)
+            lab = pr.get("label") or ""
+            ck.case(key=("probe", pr["kind"], lab, json.dumps(pr["case"], sort_keys=True)[:200]), bucket=f"regime/{pr['kind']}" + (f"/{lab}" if lab and pr["kind"] == "plain" else ""),
+                    sample={"probe": pr["kind"], "label": lab, "result": {k: v for k, v in res.items() if k != "where"}} if pr["kind"] in ("batch", "grad") and len(ck.samples) < 6 else None)
+            if pr["kind"] == "must-raise":
+                failure_table.append({"malformed": lab, "outcome": res.get("raised") or ("returned %r" % res.get("returned"))})
+            if not res["ok"]:
+                probe_failures.append((pr, res))
+        ck.extra["failure_paths"] = failure_table
+        ck.extra["tensor_constructors_without_dtype"] = RG.scan_constructors(REPO, [
+            "torchtree/evolution/tree_likelihood.py", "torchtree/evolution/tree_model.py", "torchtree/evolution/site_pattern.py",
+            "torchtree/evolution/alignment.py", "torchtree/evolution/datatype.py", "torchtree/evolution/branch_model.py"])
         # ---- LIVE-object histories: update parameters of ONE model object through the public interface
         for h in range(250 if thorough else 45):
             n = rng.choice([3, 4, 5, 6])
@@ -497,13 +539,28 @@ def run(ck: Check):
         if drv:
             drv.close()
 
-    # ---- verdict
-    if live_failures and not failures:
+    # ---- verdict: every kind of finding is reported on its own (none suppresses another)
+    found = False
+    if failures:
+        found = True
+        failures.sort(key=lambda f: (len(f[0]["taxa"]), len(json.dumps(f[0]))))
+        case, impl, want = failures[0]
+        ck.violation(
+            "TreeLikelihoodModel:" + "/".join(str(x) for x in config_key(case)[:3]),
+            f"log-likelihood {impl} differs from " + ("the extended-range reference " if len(case["taxa"]) > 9 else "explicit marginalisation over all labelings ") + f"{want} "
+            f"({len(failures)} failing inputs; smallest: {len(case['taxa'])} taxa, {config_key(case)})",
+            {"case": case, "impl": impl, "oracle": want, "broken_obligations": broken,
+             "mismatches": ck.mismatches[:3], "replay_cmd": "./check C01 --replay <this file>"},
+        )
+    if live_failures:
+        found = True
         live_failures.sort(key=lambda f: (len(f[0]["taxa"]), len(f[2])))
         case, use_prior, ops, recs = live_failures[0]
+        t_shrink = time.time()
         try:
-            use_prior, ops = LV.shrink(case, use_prior, ops)
-            recs = LV.run_live(case, use_prior, ops)
+            if len(ops) <= 30:
+                use_prior, ops = LV.shrink(case, use_prior, ops, deadline=t_shrink + 40)
+                recs = LV.run_live(case, use_prior, ops)
         except Exception as e:  # noqa: BLE001
             ck.notes.append("shrinking failed: " + repr(e)[:200])
         bad = next((r for r in recs if LV.failing(r)), recs[-1])
@@ -516,17 +573,33 @@ def run(ck: Check):
             {"live": {"case": case, "use_prior": use_prior, "ops": ops}, "records": [{k: v for k, v in r.items() if k != "case"} for r in recs],
              "broken_obligations": broken, "replay_cmd": "./check C01 --replay <this file>"},
         )
-    elif failures:
-        failures.sort(key=lambda f: (len(f[0]["taxa"]), len(json.dumps(f[0]))))
-        case, impl, want = failures[0]
+    for route in sorted(set(f["route"] for f in route_failures)):
+        found = True
+        fs = sorted((f for f in route_failures if f["route"] == route), key=lambda f: len(json.dumps(f["case"])))
+        f = fs[0]
         ck.violation(
-            "TreeLikelihoodModel:" + "/".join(str(x) for x in config_key(case)[:3]),
-            f"log-likelihood {impl} differs from " + ("the extended-range reference " if len(case["taxa"]) > 9 else "explicit marginalisation over all labelings ") + f"{want} "
-            f"({len(failures)} failing inputs; smallest: {len(case['taxa'])} taxa, {config_key(case)})",
-            {"case": case, "impl": impl, "oracle": want, "broken_obligations": broken,
-             "mismatches": ck.mismatches[:3], "replay_cmd": "./check C01 --replay <this file>"},
+            "TreeLikelihoodModel:route:" + route,
+            f"built through the route '{route}' the model " + (f"raises {f['error']}" if f.get("error") else f"returns {f['value']} (tips held: {f.get('path')})")
+            + f" while TreeLikelihoodModel.from_json on the nested JSON returns {f['baseline']} ({len(fs)} failing cases)",
+            {"route": {"case": f["case"], "route": route}, "detail": {k: v for k, v in f.items() if k != "case"}, "replay_cmd": "./check C01 --replay <this file>"},
         )
-    elif not ok or ck.mismatches:
+    SIG = {"dtype-default32-params64": "TreeLikelihoodModel:dtype-regime", "dtype-default64-params32": "TreeLikelihoodModel:dtype-regime",
+           "to-float32": "TreeLikelihoodModel:to-dtype", "cpu": "TreeLikelihoodModel:device-move",
+           "postorder-indices": "option:use_postorder_indices"}
+    by_sig = {}
+    for pr, res in probe_failures:
+        by_sig.setdefault(SIG.get(pr["kind"], "TreeLikelihoodModel:" + pr["kind"] + (":" + pr["label"].replace(" ", "-") if pr.get("label") else "")), []).append((pr, res))
+    for sig, items in sorted(by_sig.items()):
+        found = True
+        items.sort(key=lambda x: len(json.dumps(x[0]["case"])))
+        pr, res = items[0]
+        ck.violation(
+            sig,
+            f"probe '{pr['kind']}'" + (f" ({pr['label']})" if pr.get("label") else "") + f" fails on {config_key(pr['case'])}: "
+            + json.dumps({k: v for k, v in res.items() if k not in ("where", "ok")}, default=str)[:400] + f" ({len(items)} failing probes of this kind)",
+            {"probe": pr, "result": res, "replay_cmd": "./check C01 --replay <this file>"},
+        )
+    if not found and (not ok or ck.mismatches):
         ck.violation(
             "C01:unproved",
             "C01 theorems or the model/implementation correspondence no longer check "
@@ -578,6 +651,33 @@ def _run_case(ck, drv, torch, case, failures, bucket, lean=True, oracle=True):
 def replay(path: str) -> int:
     torch = setup_torch()
     obj = json.loads(Path(path).read_text())
+    if obj.get("route"):
+        rt = obj["route"]
+        import random
+
+        rng = random.Random(0)
+        try:
+            v0 = impl_value(RT.build_route(rt["case"], "baseline", rng))
+        except Exception as e:  # noqa: BLE001
+            print("baseline raised:", repr(e))
+            return 1
+        import tempfile
+
+        with tempfile.TemporaryDirectory() as tmp:
+            try:
+                m = RT.build_route(rt["case"], rt["route"], rng, tmp)
+                v = impl_value(m)
+                pth = impl_path(m, len(rt["case"]["taxa"]))
+            except Exception as e:  # noqa: BLE001
+                print(f"route {rt['route']}: raised {e!r}; from_json: {v0!r}; VIOLATES")
+                return 1
+        bad = not close(v, v0, 1e-13)
+        print(f"route {rt['route']}: {v!r} (tips {pth}); from_json: {v0!r}; {'VIOLATES' if bad else 'ok'}")
+        return 1 if bad else 0
+    if obj.get("probe"):
+        res = RG.run_probe(obj["probe"])
+        print(f"probe {obj['probe']['kind']}: {json.dumps({k: v for k, v in res.items() if k != 'where'}, default=str)[:600]}; {'ok' if res['ok'] else 'VIOLATES'}")
+        return 0 if res["ok"] else 1
     if obj.get("live"):
         lv = obj["live"]
         recs = LV.run_live(lv["case"], lv["use_prior"], lv["ops"])
